@@ -373,3 +373,18 @@ Proof.
   intros src dst H. assert (Hc : canon src = canon dst) by (apply py_eq_sound_sym; exact H).
   split; [exact Hc|]. intro v. apply same_layout_same_encoding. exact Hc.
 Qed.
+
+(* ---- type_spec_from_algosdk reads a signature type as the spec of the SAME type, or refuses ---- *)
+Theorem from_algosdk_same_type : forall t p, from_algosdk t = Some p -> p = t.
+Proof. intros t p H. unfold from_algosdk in H. destruct (sdk_supported t); congruence. Qed.
+
+Theorem method_arg_admits_same_layout : forall arg param,
+    method_arg_admits arg param = true ->
+    canon arg = canon param /\ forall v, arc4_encode arg v = arc4_encode param v.
+Proof.
+  intros arg param H. unfold method_arg_admits in H.
+  destruct (from_algosdk param) as [p|] eqn:E; [|discriminate H].
+  apply from_algosdk_same_type in E. subst p.
+  assert (Hc : canon arg = canon param) by (apply assignable_same_layout; exact H).
+  split; [exact Hc|]. intro v. apply same_layout_same_encoding. exact Hc.
+Qed.
